@@ -510,6 +510,15 @@ func (w world) RunCase(t *tape.Tape, st *super.Stats) *super.Violation {
 		}
 	}
 
+	if super.Noting() {
+		super.Note(sb.String())
+		for c := range results {
+			for _, r := range results[c] {
+				super.Note(r.String())
+			}
+		}
+	}
+
 	// ---- oracle 3: data races (deterministic per schedule)
 	for _, rep := range readRaces() {
 		sig, lib := raceSig(rep)
@@ -599,6 +608,13 @@ func dedup(l []string) []string {
 
 func main() {
 	runtime.GOMAXPROCS(4)
+	if v := os.Getenv("VERIF_GOMAXPROCS"); v != "" {
+		n := 0
+		fmt.Sscan(v, &n)
+		if n >= 2 {
+			runtime.GOMAXPROCS(n)
+		}
+	}
 	simrt.YieldHook = sched.Yield
 	simrt.LockHook = sched.Always
 	simrt.BlockedHook = sched.Blocked
